@@ -353,6 +353,10 @@ def run(chk: Check) -> None:
             r4.violation("run_build returns (.., messages, blockers)", rb.loc(rt), "return shape changed")
     cs = ix.func("mypy.util.count_stats")
     src = norm(cs.node)
+    # the markers may be looked for by a helper the function calls (util.message_severity)
+    for c in ast.walk(cs.node):
+        if isinstance(c, ast.Call) and isinstance(c.func, ast.Name) and c.func.id in cs.module.functions:
+            src += " " + norm(cs.module.functions[c.func.id].node)
     if "': error:'" in src and "': note:'" in src:
         r4.ok("count_stats classifies by ': error:' / ': note:' severity markers", cs.loc())
     else:
@@ -592,6 +596,41 @@ def run_notes_carry_code(chk: Check, ix) -> None:
                 r11.ok(key, f.loc(nt))
             else:
                 r11.violation(key, f.loc(nt), f"the function reports its errors with code {codes_used} and this note with none (so `misc`): `# type: ignore[{codes_used[0].split('.')[-1].lower().replace('_', '-')}]` removes the error and leaves the note")
+    # note-only helpers of MessageBuilder called by a method that reports a coded error
+    mb = ix.cls("mypy.messages.MessageBuilder")
+    for hname, h in sorted(mb.methods.items()):
+        hcalls = [c for c in ast.walk(h.node) if isinstance(c, ast.Call) and isinstance(c.func, ast.Attribute) and norm(c.func.value) == "self"]
+        hnotes = [c for c in hcalls if c.func.attr in ("note", "note_multiline")]
+        if not hnotes or any(c.func.attr == "fail" for c in hcalls):
+            continue
+        callers = []
+        for cname, cm in mb.methods.items():
+            if cm is h:
+                continue
+            # the helper is called in the statement right after a coded `self.fail(...)` of the same block
+            adjacent = False
+            for blk_owner in ast.walk(cm.node):
+                for fld in ("body", "orelse", "finalbody"):
+                    blk = getattr(blk_owner, fld, None)
+                    if not isinstance(blk, list):
+                        continue
+                    for prev, cur in zip(blk, blk[1:]):
+                        is_use = isinstance(cur, ast.Expr) and isinstance(cur.value, ast.Call) and isinstance(cur.value.func, ast.Attribute) and norm(cur.value.func.value) == "self" and cur.value.func.attr == hname
+                        is_fail = isinstance(prev, ast.Expr) and isinstance(prev.value, ast.Call) and isinstance(prev.value.func, ast.Attribute) and prev.value.func.attr == "fail" and any(k.arg == "code" for k in prev.value.keywords)
+                        if is_use and is_fail:
+                            adjacent = True
+            if adjacent:
+                callers.append(cname)
+        if not callers:
+            continue
+        for nt in hnotes:
+            n += 1
+            kws = {k.arg for k in nt.keywords}
+            key = f"MessageBuilder.{hname}: the note of a helper called next to coded errors ({', '.join(sorted(callers))[:60]}) carries a code"
+            if {"code", "parent_error"} & kws:
+                r11.ok(key, h.loc(nt))
+            else:
+                r11.violation(key, h.loc(nt), f"{hname} is called by {sorted(callers)} right after a `self.fail(..., code=...)`, but its note has no code (so `misc`): suppressing the error by its code leaves the note behind")
     if n < 20:
         raise AnalysisError(f"only {n} notes next to coded errors found")
 
